@@ -248,15 +248,15 @@ func RunC20(c *Ctx, r *Report) {
 	r.Rule(prefix+"protect.modset", "encryptMsg (transitively) writes only the message's payload list, header bookkeeping, fields of the freshly allocated Encrypted payload, and byte buffers", 1)
 	if em := c.Func("", "encryptMsg"); em != nil {
 		allowedP := map[string]string{
-			"field:message.IKEHeader.NextPayload":     "header bookkeeping",
-			"field:message.IKEHeader.PayloadBytes":    "header bookkeeping",
-			"deref:message.IKEPayloadContainer":       "the message's own payload list (Reset / BuildEncrypted)",
-			"field:message.Encrypted.NextPayload":     "field of the fresh Encrypted payload",
-			"field:message.Encrypted.EncryptedData":   "field of the fresh Encrypted payload",
-			"elem:byte":                               "byte buffers (fresh; clause encode.no-write-through covers message-owned ones)",
-			"elem:uint8":                              "byte buffers",
-			"local-heap":                              "objects allocated by the function itself",
-			"elem:eap.EapAkaPrimeAttrType":            "sorting a fresh key slice in EAP-AKA' Marshal",
+			"field:message.IKEHeader.NextPayload":   "header bookkeeping",
+			"field:message.IKEHeader.PayloadBytes":  "header bookkeeping",
+			"deref:message.IKEPayloadContainer":     "the message's own payload list (Reset / BuildEncrypted)",
+			"field:message.Encrypted.NextPayload":   "field of the fresh Encrypted payload",
+			"field:message.Encrypted.EncryptedData": "field of the fresh Encrypted payload",
+			"elem:byte":                             "byte buffers (fresh; clause encode.no-write-through covers message-owned ones)",
+			"elem:uint8":                            "byte buffers",
+			"local-heap":                            "objects allocated by the function itself",
+			"elem:eap.EapAkaPrimeAttrType":          "sorting a fresh key slice in EAP-AKA' Marshal",
 		}
 		var bad []string
 		for _, k := range c.ModSet(em).sorted() {
